@@ -63,7 +63,7 @@ CLAIMED = {
   note="ASan only sees accesses that happen in an execution; histories dereference after every move. Miri is deliberately not used (see DESIGN).",
   ref="DESIGN.md §4 C11"),
  "C12": dict(
-  technique=PBT + " over directly constructed attribute shapes (incl. all-zero counts) and builder specifications with six validity predicates (P1-P6) on generate_state()/calculate()",
+  technique=PBT + " over directly constructed attribute shapes (incl. all-zero counts) and builder specifications with seven validity predicates (P1-P7; P7 = the generating builder and a builder handed the state stay interchangeable across a later origin switch) on generate_state()/calculate()",
   text="Exploration of all four modes x shapes x origins x every subset of provided values (in range, beyond N, huge) x priorities x passed_objects: misses bounded and kept, fitting results never lowered, remainder filled to exactly N, combo bounded, idempotence, calculate() == explicit generated state.",
   note="Release-profile arithmetic; P2 is the weakest reading of `keeps every provided hit result that fits`.",
   ref="DESIGN.md §4 C12"),
@@ -93,8 +93,8 @@ CLAIMED = {
   note="1/5 of source maps use the adversarial numeric profile.",
   ref="DESIGN.md §4 C19"),
  "C20": dict(
-  technique="schedule-perturbing " + PBT + ": generated job lists, thread counts, assignments, sharing modes, yields/spins and hand-over schedules; oracle = equality with the sequential run; default and sync builds, ThreadSanitizer in the thorough tier",
-  text="Exploration: thread-pool runs over shared maps (by reference and Arc) must reproduce the sequential results; a gradual calculator handed around a ring of threads must reproduce the single-thread sequence (taiko with the sync feature).",
+  technique="schedule-perturbing " + PBT + ": generated job lists, thread counts, assignments, sharing modes, yields/spins, hand-over schedules and barrier-synchronised simultaneous starts; oracle = equality with the sequential run; default and sync builds, ThreadSanitizer in the thorough tier",
+  text="Exploration: thread-pool runs over shared maps (by reference and Arc) must reproduce the sequential results; a gradual calculator handed around a ring of threads must reproduce the single-thread sequence (taiko with the sync feature); the same job started by 2-8 threads at the same instant (spin barrier) on a never-seen shared map must give every thread the sequential result (first-use initialisation races).",
   note="The harness owns assignments, hand-over points and perturbations, not the OS scheduler; all schedules are not enumerable from user space. TSan (thorough) reports races even when values agree.",
   ref="DESIGN.md §4 C20"),
  "C15": dict(
